@@ -16,6 +16,7 @@ Property driver interface (module vf.props.cNN):
   finalize(agg) -> list of extra failures (optional, parent side, e.g. cross-case checks)
   ASSUMPTIONS = [...]
 """
+import glob
 import hashlib
 import importlib
 import json
@@ -65,6 +66,10 @@ def worker_main(argv):
         res["ev"] = "end"
         res["t"] = round(time.time() - t0, 4)
         j.write(json.dumps(res, default=_jsonable) + "\n")
+        if res.get("restart_worker"):
+            # the case left the process in a state that later cases must not inherit (e.g. a sanitizer let a heap overrun proceed):
+            # leave; the parent resumes the shard after this case in a fresh process
+            break
     j.close()
 
 
@@ -116,6 +121,9 @@ def _read_journal(path):
     return started, ended
 
 
+_SEQ = [0]
+
+
 def run_cases(prop, cases, flavour, scratch, case_timeout, extra_env=None, nproc=None, per_case_process=False):
     """Run cases in worker subprocesses. Returns (results{id:res}, crashes{id:desc}, hangs[list of id])."""
     nproc = nproc or NPROC
@@ -127,7 +135,7 @@ def run_cases(prop, cases, flavour, scratch, case_timeout, extra_env=None, nproc
     shards = [cases[i::n] for i in range(n)]
     queue = [(i, s) for i, s in enumerate(shards) if s]
     running = []
-    seq = [0]
+    seq = _SEQ      # process-wide: a second run_cases() in the same scratch (confirmation runs) must not reuse journals
     asan_dir = os.path.join(scratch, "san")
     os.makedirs(asan_dir, exist_ok=True)
 
@@ -178,6 +186,10 @@ def run_cases(prop, cases, flavour, scratch, case_timeout, extra_env=None, nproc
                 else:
                     continue
             running.remove(r)
+            try:    # helpers the worker left behind (llvm-symbolizer of the sanitizer runtime) live in its own session
+                os.killpg(r["p"].pid, signal.SIGKILL)
+            except (ProcessLookupError, PermissionError):
+                pass
             started, ended = _read_journal(r["jf"])
             for cid, res in ended.items():
                 res["_san_tag"] = r["tag"]
@@ -192,6 +204,16 @@ def run_cases(prop, cases, flavour, scratch, case_timeout, extra_env=None, nproc
                     tail = f.read()[-3000:].decode("utf8", "replace")
             except OSError:
                 tail = ""
+            if flavour == "asan":   # the sanitizer runtime writes its fatal report to the log, not to stdout
+                try:
+                    logs = sorted(glob.glob(os.path.join(asan_dir, r["tag"] + ".*")), key=os.path.getmtime)
+                    if logs:
+                        with open(logs[-1], "rb") as f:
+                            txt = f.read().decode("utf8", "replace")
+                        i = max(txt.rfind("ERROR: AddressSanitizer"), txt.rfind("runtime error:"))
+                        tail += "\n--- sanitizer log (last report) ---\n" + "\n".join(l for l in txt[max(0, i - 20):].splitlines()[:14])[:1500]
+                except OSError:
+                    pass
             if inflight:
                 bad = inflight[-1]
                 if rc == "hang":
@@ -254,6 +276,9 @@ def main(prop, tier, seed, replay=None):
             cases = [rp["case"]]
         else:
             cases = mod.gen_cases(tier, seed)
+        if os.environ.get("VF_ONLY"):      # debugging aid: restrict to case ids matching a regex
+            import re
+            cases = [c for c in cases if re.search(os.environ["VF_ONLY"], c["id"])]
         ids = [c["id"] for c in cases]
         assert len(set(ids)) == len(ids), "duplicate case ids"
         case_timeout = getattr(mod, "CASE_TIMEOUT", 120)
